@@ -21,6 +21,9 @@ P = []
 def prop(id, roots, bounded=(), paper=(), assumptions=(), level="other", expl="", skip=()):
     P.append({"id": id, "roots": roots, "bounded": [{"test": t, "what": w, "bound": b} for t, w, b in bounded], "paper_lemmas": list(paper),
               "assumptions": list(assumptions), "level": level, "explanation": expl, "skip_kinds": list(skip)})
+    for b in P[-1]["bounded"]:
+        if b["test"] == "TestConcurrent":
+            b["race"] = True
 
 prop("C01", BACKPROP,
      bounded=[("TestDAG", "global half of C01: every back edge is applied exactly once, after the gradient of its source is complete, so each tracked tensor receives the total derivative; additivity over graphs sharing leaves; polynomial time", "all DAGs with <= 4 (quick) / <= 5 (thorough) interior nodes over {Scale, Exp, Mul, Add, Sub, SumAlong, Slice, Concat}, every fan-out / reconvergence pattern, tracked/untracked leaf assignments, values from VERIF_SEED")],
